@@ -534,7 +534,7 @@ pub fn run_batch<P: Prop>(o: &Opts) -> i32 {
             continue;
         }
         n_viol += count;
-        let (scn, v, tried) = if class == "hang" { (f.scn.clone(), f.v.clone(), 0) } else { minimise::<P>(&f.scn, &f.v, Duration::from_secs(o.tier.pick(20, 60))) };
+        let (scn, v, tried) = if class == "hang" { (f.scn.clone(), f.v.clone(), 0) } else { minimise::<P>(&f.scn, &f.v, Duration::from_secs(o.tier.pick(4, 30))) };
         let path = format!("{}/{}-{}-{:016x}.json", o.out_dir, P::ID, sanitize(&format!("{}-{}", class, key)), rng::run_seed(seed, P::ID, f.idx as u64));
         let rf = ReplayFile {
             property: P::ID.to_string(),
